@@ -53,7 +53,7 @@ func (g PGen) Bytes() []byte {
 	case "seq":
 		b := make([]byte, g.Len)
 		for i := range b {
-			b[i] = byte((g.Start + i + 3*(i/256)) % 256)
+			b[i] = byte((g.Start + i + 3*(i/256) + 7*(i/65536)) % 256)
 		}
 		return b
 	case "rep":
